@@ -410,8 +410,9 @@ Proof.
   unfold form_unmarshal, form_unmarshal_gen.
   destruct (parse_query data) as [form|] eqn:E; [|discriminate].
   destruct d; try discriminate.
-  pose proof (map_fields_total fs form (parse_query_nonempty _ _ E)) as H. unfold map_fields in H.
-  destruct (map_fields_gen (Ok []) form fs); cbn [omap]; congruence.
+  - pose proof (map_fields_total fs form (parse_query_nonempty _ _ E)) as H. unfold map_fields in H.
+    destruct (map_fields_gen (Ok []) form fs); cbn [omap]; congruence.
+  - destruct assignable; discriminate.
 Qed.
 
 (* ---- the decoder never changes the type of the destination:
@@ -514,3 +515,12 @@ Qed.
 Lemma form_total_refuted_lemma :
   exists data fs, form_unmarshal_prefix data (TStruct fs) = Panic.
 Proof. exists (str "b=1&b=2&b=3"), witness_array. exact form_total_prefix_witness. Qed.
+
+Lemma form_iface_refuted_lemma : exists data, form_unmarshal_prefix data (TIface false) = Panic.
+Proof. exists (str "a=1"). vm_compute. reflexivity. Qed.
+
+(* an interface destination that can hold the map receives it *)
+Lemma form_iface_lemma data form :
+  parse_query data = Some form ->
+  form_unmarshal data (TIface true) = Ok (RValues form) /\ form_unmarshal data (TIface false) = Err.
+Proof. intros H. unfold form_unmarshal, form_unmarshal_gen. rewrite H. split; reflexivity. Qed.
